@@ -17,8 +17,13 @@ for c in p.classes.values():
 from sa.resolve import Resolver
 cg = Resolver(p).call_graph()
 sigs = {q: f.params + ['*'] + f.kwonly for q, f in p.functions.items()}
+from sa.normalise import function_refs
+refs = function_refs(p, {q.split('.')[-1] for q in p.functions})
 out = {'reference_commit': head, 'functions': sorted(p.functions), 'constants': sorted(set(consts)),
-       'calls': {k: sorted(v) for k, v in sorted(cg.items()) if v}, 'signatures': sigs}
+       'calls': {k: sorted(v) for k, v in sorted(cg.items()) if v}, 'signatures': sigs,
+       'refs': {q: sorted(v) for q, v in sorted(refs.items()) if v},
+       'kinds': {q: ('classmethod' if f.is_classmethod else 'staticmethod' if f.is_staticmethod else 'property' if f.is_property
+                     else 'method' if f.cls is not None else 'function') for q, f in p.functions.items()}}
 dst = os.path.join(os.path.dirname(os.path.dirname(os.path.abspath(__file__))), 'sa', 'tables', 'known_functions.json')
 json.dump(out, open(dst, 'w'), indent=0)
 print(len(out['functions']), 'functions ->', dst)
